@@ -85,7 +85,10 @@ func (s *OpenAPI3Exporter) GenerateOpenAPI3(app *syslwrapper.App) (*openapi3.T, 
 		Description: app.Attributes["env.1.description"],
 		Variables:   map[string]*openapi3.ServerVariable{},
 	}
-	spec.AddServer(server)
+	// `servers` is optional, but a server object needs a url
+	if server.URL != "" {
+		spec.AddServer(server)
+	}
 	components := openapi3.NewComponents()
 	spec.Components = &components
 	spec.Components.Schemas = make(map[string]*openapi3.SchemaRef)
